@@ -211,7 +211,7 @@ class Ctx:
             else:
                 self.counters[k] = v
 
-    def pmap(self, fn, shards, nproc: int | None = None):
+    def pmap(self, fn, shards, nproc: int | None = None, pin: bool = False, fresh: bool = False):
         """Run fn(shard)->Part for every shard on forked workers and merge.
 
         VERIF_SEED only permutes the order in which shards are handed out.
@@ -227,7 +227,13 @@ class Ctx:
                 self.merge(p)
             return
         mp = multiprocessing.get_context("fork")
-        with mp.Pool(min(nproc, len(shards)), initializer=_pin_worker) as pool:
+        # pin=True: one CPU per worker; only worth it for the thread-scheduler engine (cheap baton hand-offs),
+        # it hurts fork-heavy or long shards on a machine that also runs other work
+        # fresh=True: a new worker process (fork of this, pristine, parent) for every shard
+        if os.environ.get("VERIF_PIN") == "0":
+            pin = False
+        with mp.Pool(min(nproc, len(shards)), initializer=_pin_worker if pin else None,
+                     maxtasksperchild=1 if fresh else None) as pool:
             for st, p in pool.imap_unordered(_run_shard, [(fn, s) for s in shards]):
                 if st == "err":
                     pool.terminate()
